@@ -48,6 +48,7 @@ type Scenario struct {
 	Unit     int     `json:"unit,omitempty"` // nanoseconds per time unit (tick, interval, freq)
 	Script   []Move  `json:"script"`
 	NoFinish bool    `json:"nofinish,omitempty"` // C06: after the script nobody receives any more: cancel + close inputs only
+	Prefill  int     `json:"prefill,omitempty"`  // elements already sitting in the (buffered) input 0 when the stage is created
 	Par      int     `json:"par,omitempty"`      // fork stages: number of workers
 	Gated    bool    `json:"gated,omitempty"`    // fork stages: user calls block on gates opened by release moves
 	Monoid   int     `json:"monoid,omitempty"`   // fork.Fold: commutative monoid family member
